@@ -201,6 +201,11 @@ fn search_sequences(obs: &[&str]) {
                     first.entry("oneway").or_insert(json!({"input": String::from_utf8_lossy(&input), "reply_bytes": out.len(), "reply_shapes": shapes, "expected_shapes": expected_shapes(&nonone)}));
                 }
             }
+            // continues:true only in answer to more: no more `cont` records than the more-requests of the sequence allow
+            let cont_allowed = exp.iter().filter(|x| *x == "cont").count();
+            if shapes.iter().filter(|x| *x == "cont").count() > cont_allowed {
+                first.entry("contflag").or_insert(describe("a reply with continues:true where the request did not carry more:true"));
+            }
             match &whole_out {
                 None => whole_out = Some(out.clone()),
                 Some(w) => if *w != out || left != 0 { first.entry("seg").or_insert(describe("reply bytes differ from the unsegmented run")); }
@@ -208,7 +213,7 @@ fn search_sequences(obs: &[&str]) {
         }
     }
     for ob in obs {
-        let class = if ob.starts_with("C04") || *ob == "C05.wire" { "oneway" } else if ob.starts_with("C03") { "route" } else if ob.starts_with("C02") { "seg" }
+        let class = if ob.starts_with("C04") { "oneway" } else if *ob == "C05.wire" { "contflag" } else if ob.starts_with("C03") { "route" } else if ob.starts_with("C02") { "seg" }
             else if *ob == "C06.no-panic" { "panic" } else if ob.starts_with("C06") { "none" } else { "order" };
         let f = first.get(class);
         emit(ob, f.is_some(), explored, f.cloned().unwrap_or(Value::Null));
